@@ -24,14 +24,14 @@ RULE = ("one case = one logical setting for one key: a type hint from the gramma
         "set (argv, env, object, parse_string, --cfg FILE) under json / jsonnet / omegaconf (quick: yaml + one or all other "
         "modes per case; thorough: all four). Every look-alike string is run at str, Optional[str], List[str] and "
         "Dict[str,str]. 30% of the cases run five yaml-mode channels once more AFTER another parser's parse_args was rejected "
-        "while applying a --cfg value (the key itself set by an accepted option before). History family (60 quick / 400 "
+        "while applying a --cfg value (the key itself set by an accepted option before). History family  (60 quick / 300 "
         "thorough): a parser with dataclass, List[dataclass], Dict[str,dataclass], Optional[dataclass] and subclass-typed "
         "keys — types whose parsing consults the previous value of the key; settings with missing fields / without "
         "class_path through parse_object, parse_string, parse_path, --cfg string, --cfg file and dotted options of fresh "
         "parsers, first in a clean context, then after an earlier parse_args of another parser: 1-4 accepted options followed "
         "by a rejected --cfg (wrong type, unparsable, unknown class; string or file), an accepted --cfg, accepted-then-"
         "rejected, a rejected option, options after it; each case runs in its own contextvars.copy_context(). "
-        "Sub-command family (50 quick / 250 thorough): a parser with 2-3 sub-commands, one top-level key and 1-3 keys of the "
+        "Sub-command family (50 quick / 150 thorough): a parser with 2-3 sub-commands, one top-level key and 1-3 keys of the "
         "chosen sub-command (not necessarily the first) with types from a tame set (scalars, Optional, List, Dict, Tuple, Set, "
         "Enum; values every channel accepts); dotted options, parse_object, parse_env(MAPPING) with the variables absent from "
         "os.environ, os.environ + parse_args(env=True), parse_string, parse_path, --cfg FILE/STRING, PREFIX_CFG, "
@@ -503,9 +503,9 @@ def generate(rng, tier):
         if rng.random() < 0.3:
             c["after"] = rng.choice(['{"other": "not-an-int"}', "other: [1]\n", "{a: ["])
         cases.append(c)
-    for _ in range(60 if tier == "quick" else 400):
+    for _ in range(60 if tier == "quick" else 300):
         cases.append(gen_hist(rng, rng.choice(MODES)))
-    for _ in range(50 if tier == "quick" else 250):
+    for _ in range(50 if tier == "quick" else 150):
         cases.append(gen_sub(rng, list(MODES) if tier == "thorough" and rng.random() < 0.3 else ["yaml", rng.choice(MODES[1:])]))
     return cases
 
@@ -517,7 +517,7 @@ def observe(cases):
     if not cases:
         return []
     n = min(fw.JOBS, len(cases))
-    res = run_impl_parallel("c05_channels.py", [{"cases": cases[k::n]} for k in range(n)])
+    res = run_impl_parallel("c05_channels.py", [{"cases": cases[k::n]} for k in range(n)], timeout=2700)
     out = [None] * len(cases)
     for k, r in enumerate(res):
         for i, o in zip(range(k, len(cases), n), r):
